@@ -8,6 +8,9 @@ TRUSTED_COMMON = [
     "Coq 8.16.1 kernel (coqc); vm_compute is used, native_compute is not",
     "no axioms: `Print Assumptions` of every property theorem must say `Closed under the global context` (allowlist empty)",
     "rs2v (the syn-based translator of /verif/rs2v) and coq/Eval.v (the semantics given to the dumped syntax)",
+    "coq/Prims.v (which checked machine primitive a method / allocator / pointer call in a translated body denotes) and the "
+    "function-boundary semantics and assumptions of the method-body ties (EquivElem.v: returning, param_dropped_on_unwind, len_ok)",
+    "vlib/model.py + vlib/implside.py: the verdict rules of the correspondence run (first divergence decides, premises, monitor relevance: DESIGN.md 13)",
 ]
 
 class Ctx:
